@@ -12,6 +12,7 @@ import (
 	"github.com/paulsonkoly/chess-3/move"
 	"github.com/paulsonkoly/chess-3/search"
 
+	"verif/harness/conv"
 	"verif/harness/ref"
 )
 
@@ -42,7 +43,7 @@ func (r *Root) Board() (*board.Board, error) {
 		return nil, err
 	}
 	for _, m := range r.Moves {
-		b.MakeMove(move.Move(m))
+		b.MakeMove(conv.M(m))
 	}
 	return b, nil
 }
@@ -344,7 +345,7 @@ func CheckC06(root *Root, res *Result, completed bool) (issues []Issue) {
 	legal := root.Pos.Legal()
 	isLegal := false
 	for _, m := range legal {
-		if move.Move(m) == res.Move {
+		if conv.M(m) == res.Move {
 			isLegal = true
 		}
 	}
